@@ -22,7 +22,7 @@ import treeenc
 import validenc
 import vlib
 import yanggen
-from lyxlib import PARSE_ONLY, PARSE_STRICT, NEWPATH_UPDATE
+from lyxlib import PARSE_ONLY, PARSE_STRICT, PARSE_NO_STATE, VAL_NO_STATE, NEWPATH_UPDATE
 from props.comps import Comp
 from props.oracles import Oracle, crashed, creation_items, gen_case, node_path, walk_paths
 from vlib import hexs
@@ -49,6 +49,8 @@ def vclass(res):
     rc_, vecode, tag, cls = p[0], p[1], p[2], p[3].split("!")[0]
     if "!" in res:
         return cls + "!" + res.split("!", 1)[1]
+    if cls == "unknown" and rc_ == "7" and vecode == "4":
+        return cls              # a node the schema does not have (e.g. disabled by if-feature): LYVE_REFERENCE
     if rc_ != "7" or vecode != "9":
         return "%s!rc=%s/vecode=%s" % (cls, rc_, vecode)
     if tag != APPTAG.get(cls, "-") and cls not in ("nomust",):
@@ -363,6 +365,41 @@ def shuffled(rng, forest, keep_keys=True):
     return out
 
 
+def removed_paths(f, g):
+    """paths of the top-most nodes of f that are missing in g (g = f with nodes removed), None when a node has no path"""
+    try:
+        pf = [(node_path(n, par), n) for n, par in walk_paths(f)]
+        pg = [node_path(n, par) for n, par in walk_paths(g)]
+    except Exception:
+        return None
+    for n, par in walk_paths(f):
+        s = n.schema
+        if (s.kind == "list" and not s.keys) or (s.kind == "leaf-list" and not validenc._cfg(s)):
+            return None
+        if n.value is not None and "'" in n.value and '"' in n.value:
+            return None
+    have = {}
+    for x in pg:
+        have[x] = have.get(x, 0) + 1
+    rem = []
+    for x, n in pf:
+        if have.get(x, 0) > 0:
+            have[x] -= 1
+        else:
+            rem.append(x)
+    top = [x for x in rem if not any(x != y and x.startswith(y + "/") for y in rem)]
+    return top
+
+
+def known_stale_default(m):
+    """does the module have a choice with a default case nested in a case of another choice (finding
+    stale-nested-default-case: after edits a default node of that default case keeps the outer case alive)"""
+    for n in m.all_nodes():
+        if n.kind == "choice" and n.default and n.parent is not None and n.parent.kind == "choice":
+            return True
+    return False
+
+
 def known_unique_default(m):
     """does the module have a unique leaf with a default value below a presence container or inside a case (libyang counts
     that default even when it is not in use: finding unique-default-not-in-use)"""
@@ -440,7 +477,7 @@ class ValidModel(Comp):
 
     def gen(self, rng, tier, scale=1.0):
         pre = []
-        for i in range(self.n(tier, 700, 12000, scale)):
+        for i in range(self.n(tier, 2500, 40000, scale)):
             m, ig = valid_case(rng, userord=(i % 3 == 0), state=(i % 4 != 1))
             ig.max_inst = 6 if i % 5 == 0 else 4
             if i % 11 == 0:
@@ -472,7 +509,7 @@ class ValidModel(Comp):
                 continue                    # module or document rejected by the parser: not a case for the model
             dumps = [x for c, x in zip(cmds, r) if c[0] == "dump"]
             fields = validenc.fields(m) + ["#e " + (",".join(sorted(exp)) or "-"),
-                                           "#k " + ("1" if known_unique_default(m) else "0")] + \
+                                           "#k " + ("1" if known_unique_default(m) else "0"), "#g " + ("1" if known_stale_default(m) else "0")] + \
                 ["#d " + d for d in dumps[:2]] + ["#a " + d for d in dumps[2:]]
             L.append(vline(fields, cmds))
         return L
@@ -501,12 +538,19 @@ class ValidModel(Comp):
         after = [x for x in its if x.startswith("A:")]
         for k, it in enumerate([x for x in its if not x.startswith("A:")]):
             p = it.split(":")
-            if len(p) != 4:
+            if len(p) != 5:
                 return ["model:" + out[:100]]
-            v, ok, rules, placed = p
+            v, ok, rules, placed, wf = p
             cls = sorted({RULE_CLASS[c] for c in rules if c in RULE_CLASS})
+            kud = "#k 1" in fields
             if k == 0 and placed != "1":
                 items.append("not-placed")
+            elif wf[0] != "1":
+                items.append("vschema-not-ok")
+            elif (wf[1] == "1") == kud:
+                items.append("uniq_plain=%s-but-python-says-%s" % (wf[1], kud))
+            elif k == 0 and wf == "111" and (v == "0") != (ok == "1"):
+                items.append("theorem-C02_validate_iff_rfc_partial-contradicted")
             elif k == 0:
                 items.append("%s:%s:%s" % (v, ok, ",".join(cls)))
             else:
@@ -526,12 +570,27 @@ class ValidModel(Comp):
         mi, ii = self.parts(line, model_out), self.parts(line, impl_out)
         fields = line.split("\t")[1:]
         kud = "#k 1" in fields
-        moved = any(x.startswith(("move ", "dupins ")) for x in fields)
+        stale = "#g 1" in fields
+        moved = any(x.startswith("move ") for x in fields)      # (dupins inserts a duplicate that IS flagged new)
+        raw = [x for x in model_out.split(" | ") if not x.startswith("A:")]
+        after = [x for x in model_out.split(" | ") if x.startswith("A:")]
         for k, (a, b) in enumerate(zip(mi, ii)):
             if a == b:
                 continue
             pa, pb = a.split(":"), b.split(":")
             if len(pa) != 3 or len(pb) != 3:
+                return None
+            if pa[0] != pb[0] and k < len(raw) and len(raw[k].split(":")) == 5:
+                # the model of the code and the code disagree: is it the code that departs from the RFC verdict?
+                rb = raw[k].split(":")[1]
+                ra = after[0].split(":")[1] if (k > 0 and after) else rb
+                if pb[0] == "0" and (ra if k > 0 else rb) == "0" and not (k > 0 and moved):
+                    return (None, "validation accepted a tree that violates RFC 7950 (the model of the unchanged code "
+                                  "answers %s)" % pa[0])
+                if pb[0] != "0" and rb == "1" and not (kud and pb[0] == "nouniq") and not (k > 0 and moved):
+                    return (None, "validation rejected (%s) a tree that satisfies every modelled RFC 7950 rule" % pb[0])
+                if pb[0] != "0" and pa[0] != "0" and k == 0 and len(pa[2].split(",")) == 1:
+                    return (None, "error class %s, the only violated rule class is %s" % (pb[0], pa[2]))
                 return None
             if pa[0] == pb[0]:
                 # the model of the code agrees with the code: the disagreement is with the RFC verdict
@@ -545,6 +604,9 @@ class ValidModel(Comp):
                     # the moved node (not flagged LYD_NEW) did not trigger the auto-deletion of the stale default instance
                     # of its leaf; the default instance is then the one validation looks at
                     return ("moved-node-dup-unchecked", "a moved (un-flagged) node next to a stale default instance: %s" % pb[0])
+                if k > 0 and stale:
+                    return ("stale-nested-default-case", "edited tree: verdict %s differs from the RFC verdict of its explicit "
+                                                         "content (a default node of a nested default case is kept)" % pb[0])
                 if pb[0] == "0":
                     return (None, "validation accepted an instance that violates RFC 7950 (%s)" % model_out[-80:])
                 if pb[0] != "0":
@@ -591,6 +653,8 @@ EXTRA_YANG = """
     leaf w { when "../a = 1"; type string; }
     leaf ii { type instance-identifier; }
   }
+  feature fx;
+  leaf ff { if-feature fx; type string; }
 """
 
 
@@ -606,8 +670,8 @@ def extra_xml(kind):
         a = "2"
     elif kind == "instid":
         ii = "/m1:vx/m1:tl[.='zz']"
-    return ('<vx xmlns="urn:verif:m1">%s<lr>%s</lr><a>%s</a><b>%s</b><w>%s</w><ii xmlns:m1="urn:verif:m1">%s</ii></vx>'
-            % (tl, lr, a, b, w, ii))
+    return ('<vx xmlns="urn:verif:m1">%s<lr>%s</lr><a>%s</a><b>%s</b><w>%s</w><ii xmlns:m1="urn:verif:m1">%s</ii></vx>%s'
+            % (tl, lr, a, b, w, ii, '<ff xmlns="urn:verif:m1">x</ff>' if kind == "iffeature" else ""))
 
 
 def extra_json(kind):
@@ -621,23 +685,70 @@ def extra_json(kind):
     elif kind == "instid":
         ii = "/m1:vx/tl[.='zz']"
     import json
-    return json.dumps({"m1:vx": {"tl": ["t1", "t2"], "lr": lr, "a": a, "b": b, "w": w, "ii": ii}})
+    o = {"m1:vx": {"tl": ["t1", "t2"], "lr": lr, "a": a, "b": b, "w": w, "ii": ii}}
+    if kind == "iffeature":
+        o["m1:ff"] = "x"
+    return json.dumps(o)
 
 
-EXTRA_CLASS = {"leafref": "noinst", "must": "nomust", "when": "nowhen", "instid": "noinst"}
+EXTRA_CLASS = {"leafref": "noinst", "must": "nomust", "when": "nowhen", "instid": "noinst", "iffeature": "unknown"}
+
+
+# lyd_validate_duplicates() through the children hash table: values of one leaf-list whose node hashes (lyd_hash():
+# lyht_hash_multi over module name, node name, value, then the finishing round) are EQUAL although the values differ
+def _hm(h, key):
+    if key:
+        for c in key:
+            h = (h + c) & 0xffffffff
+            h = (h + (h << 10)) & 0xffffffff
+            h ^= h >> 6
+    else:
+        h = (h + (h << 3)) & 0xffffffff
+        h ^= h >> 11
+        h = (h + (h << 15)) & 0xffffffff
+    return h
+
+
+def node_hash(mod, name, val):
+    return _hm(_hm(_hm(_hm(0, mod.encode()), name.encode()), val.encode()), None)
+
+
+COLLIDE = [("kwsf", "kwxa"), ("kwsg", "kwxb"), ("kwsh", "kwxc")]        # for module m1, leaf-list ll
+COLLIDE_YANG = """module m1 { yang-version 1.1; namespace "urn:verif:m1"; prefix m1;
+  container c { leaf-list ll { type string; ordered-by user; } leaf a { type string; } leaf b { type string; }
+    leaf d { type string; } list l { key k; ordered-by user; leaf k { type string; } } } }"""
+
+
+def collision_cases():
+    """leaf-list instances (and list keys) with colliding hashes below a parent that has a children hash table, a duplicate
+    placed before / between / after the colliding value"""
+    L = []
+    for x, y in COLLIDE:
+        if node_hash("m1", "ll", x) != node_hash("m1", "ll", y):
+            continue
+        for vals, cls in (([x, y], None), ([x, y, y], "dup"), ([y, x, y], "dup"), ([y, y, x], "dup"), ([x, y, x], "dup"),
+                          ([x, x, y], "dup")):
+            xml = '<c xmlns="urn:verif:m1">%s<a>1</a><b>2</b><d>3</d></c>' % "".join("<ll>%s</ll>" % v for v in vals)
+            cmds = [("mod", hexs(COLLIDE_YANG), CTX_NO_YANGLIBRARY),
+                    ("parse", "t0", "x", PARSE_STRICT, 0, hexs(xml)),
+                    ("parse", "t3", "x", PARSE_ONLY | PARSE_STRICT, 0, hexs(xml)), ("val", "t3", 0, "m")]
+            L.append(vline(["#x " + (cls or "0"), "#k 0", "#r v,pv"], cmds))
+    return L
 
 
 class ValidMut(Oracle):
     """C02: a valid instance is accepted and a single-rule mutation of it is rejected with the class (LY_EVALID, LYVE_DATA,
     RFC 7950 section 15 app-tag, message class) expected by construction, on every route: XML / JSON, canonical /
-    shuffled sibling order, parse with validation / parse-only + lyd_validate_module / lyd_new_path + validation."""
+    shuffled sibling order, parse with validation / parse-only + lyd_validate_module / lyd_new_path + validation / (for
+    the deleting mutations) lyd_free_tree on the validated valid instance + validation; plus leaf-list values whose node
+    hashes collide below a parent with a children hash table."""
     name = "validmut"
     driver = "t_valid"
 
     def gen(self, rng, tier, scale=1.0):
         L = []
         muts = MODEL_MUTS + PARSER_MUTS
-        for i in range(self.n(tier, 260, 5000, scale)):
+        for i in range(self.n(tier, 800, 12000, scale)):
             m, ig = valid_case(rng, userord=(i % 3 == 0), state=(i % 4 != 1))
             f = valid_instance(rng, m, ig)
             if f is None:
@@ -659,9 +770,9 @@ class ValidMut(Oracle):
                         break
             kud = known_unique_default(m)
             for cls, g in todo:
-                L.append(self.case(rng, m, g, cls, kud, mu_name=""))
+                L.append(self.case(rng, m, g, cls, kud, f0=f))
         # XPath-dependent rules (not in the Coq models): fixed extra container
-        for kind in (None, "leafref", "must", "when", "instid"):
+        for kind in (None, "leafref", "must", "when", "instid", "iffeature"):
             ymod = 'module m1 { yang-version 1.1; namespace "urn:verif:m1"; prefix m1;%s}' % EXTRA_YANG
             x, j = extra_xml(kind), extra_json(kind)
             cmds = [("mod", hexs(ymod), CTX_NO_YANGLIBRARY),
@@ -670,9 +781,9 @@ class ValidMut(Oracle):
                     ("parse", "t3", "x", PARSE_ONLY | PARSE_STRICT, 0, hexs(x)), ("val", "t3", 0, "m"),
                     ("parse", "t4", "j", PARSE_ONLY | PARSE_STRICT, 0, hexs(j)), ("val", "t4", 0, "m")]
             L.append(vline(["#x " + (EXTRA_CLASS[kind] if kind else "0"), "#k 0", "#r v,v,pv,pv"], cmds))
-        return L
+        return L + collision_cases()
 
-    def case(self, rng, m, g, cls, kud, mu_name=""):
+    def case(self, rng, m, g, cls, kud, f0=None):
         sh = shuffled(rng, g)
         x, xs = yanggen.to_xml(g), yanggen.to_xml(sh)
         sj = shuffled(rng, g, keep_keys=False)
@@ -690,6 +801,22 @@ class ValidMut(Oracle):
             routes.append("v")
             cmds += [("parse", "t4", "j", PARSE_ONLY | PARSE_STRICT, 0, hexs(js)), ("val", "t4", 0, "m")]
             routes.append("pv")
+        if cls is None:
+            # config/state placement: state data is refused when the caller asks for configuration only
+            exp_state = "state" if any(not validenc._cfg(n.schema) for n, _, _ in yanggen.walk(g)) else "0"
+            cmds.append(("parse", "t7", "x", PARSE_STRICT | PARSE_NO_STATE, 0, hexs(x)))
+            routes.append("V" + exp_state)
+            cmds += [("parse", "t7", "x", PARSE_ONLY | PARSE_STRICT, 0, hexs(x)), ("val", "t7", VAL_NO_STATE, "m")]
+            routes.append("P" + exp_state)
+        if cls in ("nomand", "nomandchoice", "nomin") and f0 is not None:
+            # the same mutation as API edits of the VALIDATED valid instance (implicit defaults are in the tree by then)
+            rem = removed_paths(f0, g)
+            if rem:
+                cmds.append(("parse", "t6", "x", PARSE_STRICT, 0, hexs(yanggen.to_xml(f0))))
+                for pth in rem:
+                    cmds.append(("freepath", "t6", hexs(pth)))
+                cmds.append(("val", "t6", 0, "m"))
+                routes.append("e%d" % len(rem))
         items = creation_items(g)
         if items and cls not in ("dup", "nokey"):
             it = list(items)
@@ -698,7 +825,8 @@ class ValidMut(Oracle):
                 cmds.append(("newpath", "t5", NEWPATH_UPDATE, hexs(p), hexs(v) if v is not None else "~"))
             cmds.append(("val", "t5", 0, "m"))
             routes.append("n%d" % len(it))
-        return vline(["#x " + (cls or "0"), "#k " + ("1" if kud else "0"), "#r " + ",".join(routes)], cmds)
+        return vline(["#x " + (cls or "0"), "#k " + ("1" if kud else "0"), "#g " + ("1" if known_stale_default(m) else "0"),
+                      "#r " + ",".join(routes)], cmds)
 
     def judge(self, line, out):
         if crashed(out):
@@ -711,7 +839,11 @@ class ValidMut(Oracle):
         if r[0] != "0":
             return None                 # module rejected
         k = 1
+        exp0 = exp
         for rt in routes:
+            exp = exp0
+            if rt[0] in "VP":
+                exp, rt = rt[1:], ("v" if rt[0] == "V" else "pv")
             if rt == "v":
                 got = vclass(r[k])
                 k += 1
@@ -720,6 +852,13 @@ class ValidMut(Oracle):
                 if got == "0":
                     got = vclass(r[k + 1])
                 k += 2
+            elif rt[0] == "e":
+                n = int(rt[1:])
+                if vclass(r[k]) != "0" or any(x != "0" for x in r[k + 1:k + 1 + n]):
+                    got = exp           # the valid instance was not accepted / a node was not found: judged by the other routes
+                else:
+                    got = vclass(r[k + 1 + n])
+                k += n + 2
             else:
                 n = int(rt[1:])
                 got = "0"
@@ -733,6 +872,9 @@ class ValidMut(Oracle):
                 if got.split("!")[0] == "other":
                     got = exp           # lyd_new_path refuses some invalid constructions with its own errors
             if got != exp:
+                if rt[0] == "e" and "#g 1" in fields:
+                    return ("stale-nested-default-case", "route %s: %s, expected %s: a default node of a nested default case "
+                                                         "keeps the emptied case alive" % (rt, got, exp))
                 if got == "noinst!rc=5/vecode=9" and exp == "noinst":
                     return ("instid-notfound-rc", "instance-identifier without target: return code LY_ENOTFOUND instead of LY_EVALID")
                 if got == "nouniq" and exp == "0" and kud:
